@@ -64,7 +64,9 @@ class FileManager:
         # Matches the first line of the note that OWNS this ZID (as opposed to
         # lines that merely mention it).
         first_line_regex = re.compile(
-            rf"^[-ox~<>] +(P[0-9] +)?([0-9]{{6}} +)?{re.escape(note.zid)}( |$)"
+            r"^[-ox~<>] +(P[0-9] +)?([0-9]{6} +)?"
+            + re.escape(note.zid)
+            + r"( |\r?$)"
         )
         for i, line in enumerate(c.read_text_as_is(zpage).split("\n")):
             if first_line_regex.match(line):
